@@ -226,3 +226,8 @@ Record mask_src := MSrc {
   ms_assign : bool          (* newvar[...] = vals[...] *)
 }.
 Definition model_mask : mask_src := MSrc true true true true.
+
+(* one result cell of pncbo as a function of what the source says *)
+Definition generic_cell (s : pncbo_src) (is_ma : bool) (cls : nat) (c : bcell) : ocell :=
+  if ps_view_ma s && is_ma && ma_masks cls c then None
+  else if ps_nonfinite s then to_cell (r c) else Some (r c).
